@@ -142,7 +142,7 @@ func loadEngine(repo string) (*Engine, error) {
 	if len(e.loadErrs) > 0 {
 		return e, fmt.Errorf("package load errors: %s", strings.Join(e.loadErrs, "; "))
 	}
-	prog, _ := ssautil.AllPackages(pkgs, ssa.BuilderMode(0))
+	prog, _ := ssautil.AllPackages(pkgs, ssa.GlobalDebug)
 	prog.Build()
 	e.prog = prog
 	for _, sp := range prog.AllPackages() {
